@@ -5,9 +5,11 @@ import traceback
 
 
 class Crash:
-    def __init__(self, case, tb):
+    def __init__(self, case, tb, lib_frame=None, exc=""):
         self.case = case
         self.tb = tb
+        self.lib_frame = lib_frame      # "file:function:ExceptionType" when the exception was raised inside the library under test
+        self.exc = exc
 
 
 _FN = None
@@ -16,8 +18,20 @@ _FN = None
 def _call(case):
     try:
         return _FN(case)
-    except BaseException:  # harness bug or unexpected library crash outside an oracle
-        return Crash(case, traceback.format_exc()[-3000:])
+    except BaseException as e:  # harness bug, or an exception raised by the library in a call the check expected to succeed
+        import sys
+        from . import REPO
+        tb = e.__traceback__
+        last = None
+        while tb is not None:
+            last = tb
+            tb = tb.tb_next
+        lib = None
+        if last is not None:
+            fn = last.tb_frame.f_code.co_filename
+            if os.path.realpath(fn).startswith(os.path.realpath(REPO) + os.sep + "pulsarbat"):
+                lib = f"{os.path.basename(fn)}:{last.tb_frame.f_code.co_name}:{type(e).__name__}"
+        return Crash(case, traceback.format_exc()[-3000:], lib, f"{type(e).__name__}: {e}"[:500])
 
 
 def pmap(fn, cases, jobs=0, chunksize=None):
